@@ -103,10 +103,13 @@ def run_case(case, ctx):
             det = {"N": N, "atype": atype, "start": start, "step": dt, "direction": "time-first"}
             with ctx.lib("TimeAxis -> FrequencyAxis -> TimeAxis"):
                 t = qr.TimeAxis(start, N, dt, atype=atype)
+                t_asmade = qr.TimeAxis(start, N, dt, atype=atype)        # the axis as specified (the mappings must not move the caller's axis)
                 w = t.get_FrequencyAxis()
                 t2 = w.get_TimeAxis()
                 w2 = t2.get_FrequencyAxis()
-            axes_equal(ctx, "axis-roundtrip", t, t2, det)
+            axes_equal(ctx, "axis-roundtrip", t_asmade, t, dict(det, what2="the axis object after its frequency axis was derived vs as specified"))
+            ctx.check("axis-roundtrip", abs(float(t.start) - float(start)), 0.0, dict(det, what="start of the caller's axis after get_FrequencyAxis()", got=float(t.start)))
+            axes_equal(ctx, "axis-roundtrip", t_asmade, t2, det)
             axes_equal(ctx, "axis-roundtrip", w, w2, dict(det, direction="w->t->w (derived)"))
             # derived frequency axis is the reciprocal grid
             L = N if atype == "complete" else 2 * N
@@ -128,10 +131,12 @@ def run_case(case, ctx):
             det = {"N": N, "atype": atype, "start": wstart, "step": dw, "direction": "frequency-first"}
             with ctx.lib("FrequencyAxis -> TimeAxis -> FrequencyAxis"):
                 w = qr.FrequencyAxis(wstart, N, dw, atype=atype)
+                w_asmade = qr.FrequencyAxis(wstart, N, dw, atype=atype)
                 t = w.get_TimeAxis()
                 w2 = t.get_FrequencyAxis()
                 t2 = w2.get_TimeAxis()
-            axes_equal(ctx, "axis-roundtrip", w, w2, det)
+            axes_equal(ctx, "axis-roundtrip", w_asmade, w, dict(det, what2="the axis object after its time axis was derived vs as specified"))
+            axes_equal(ctx, "axis-roundtrip", w_asmade, w2, det)
             axes_equal(ctx, "axis-roundtrip", t, t2, dict(det, direction="t->w->t (derived)"))
             ctx.sub(("axis", "w-first", N, atype, sc), nontrivial=N >= 3)
             # the same mappings made while an energy-units context is active (frequency axes are units managed): the axes obtained are
